@@ -291,6 +291,18 @@ def wl_history(ctx, rng, i):
                             ctx.violation("revoked-object-versioned", "%s returned instead of refusing" % lab, {"operation": lab, "object": prev_j})
                         except family():
                             ctx.count("refusals_observed")
+                    # ... nor is the revoked content when it arrives as a dictionary lacking one of the other versioning properties
+                    # (the library then looks the type up instead of trusting the dictionary: revoked it stays)
+                    for missing in ("modified", "created"):
+                        part = {k: v for k, v in copy.deepcopy(prev_j).items() if k != missing}
+                        for lab, fn in (("new_version-after-revoke(dictionary without %s)" % missing, lambda: stix2.versioning.new_version(part, name="x")),
+                                        ("revoke-after-revoke(dictionary without %s)" % missing, lambda: stix2.versioning.revoke(part))):
+                            try:
+                                r = fn()
+                                ctx.violation("revoked-object-versioned", "%s returned instead of refusing" % lab, {"operation": lab, "object": part})
+                            except family():
+                                ctx.count("refusals_observed")
+                                ctx.count("partial_revoked_dictionaries_refused")
                     ctx.see("operations", "after-revoke-probes")
                     break
                 if opk < 0.55:
@@ -316,9 +328,16 @@ def wl_history(ctx, rng, i):
                     label = "new_version(modified=%s)" % kind
                     opname = "new_version(modified)"
                     expect_refusal = kind in ("earlier", "equal", "sub-precision-later")
-                    shape = rng.choice(["text", "stixdatetime-any", "stixdatetime-from-2.1-object", "datetime-with-offset"])
+                    shape = rng.choice(["text", "stixdatetime-any", "stixdatetime-from-2.1-object", "datetime-with-offset"] + (["arithmetic-on-own-timestamp"] * 2 if form == "object" else []))
                     if shape == "text":
                         supplied = sup
+                    elif shape == "arithmetic-on-own-timestamp":
+                        # what a caller computes from the object's own value: whatever class and metadata the library's arithmetic gives it
+                        import datetime as _dt
+                        own = prev["modified"]
+                        supplied = own + _dt.timedelta(microseconds=sup_us - tsor.datetime_us(own))
+                        if rng.random() < 0.3:
+                            supplied = _dt.timedelta(microseconds=sup_us - tsor.datetime_us(own)) + own
                     elif shape == "stixdatetime-any":
                         supplied = stix2.utils.parse_into_datetime(sup)
                     elif shape == "stixdatetime-from-2.1-object":
@@ -639,7 +658,59 @@ def cls_for(ver, t):
     return f(ver, t)
 
 
+def wl_last_instant(ctx, rng, i):
+    """Objects modified at (or within the fudge distance of) the last instant a timestamp can hold: a later version is possible only
+    while a strictly later written time exists; where none does, the refusal comes from the library's error family."""
+    import stix2
+    import stix2.versioning
+    clk = ctx.state["clock"]
+    ver = ["2.1", "2.0"][i % 2]
+    form = ["object", "dict"][(i // 2) % 2]
+    unit = 1 if ver == "2.1" else 1000
+    last = tsor.text_us("9999-12-31T23:59:59.999999Z")
+    last -= last % unit
+    back = [0, 0, 1, 2, 1000][(i // 4) % 5] * unit            # how far before the last writable instant the object was modified
+    mod_us = last - back
+    o = {"type": "identity", "id": "identity--" + V.uuid_text(rng, 4), "created": "9999-01-01T00:00:00.000Z",
+         "modified": tsor.format_us(mod_us, "millisecond", "min" if ver == "2.1" else "exact"), "name": "n", "identity_class": "individual"}
+    if ver == "2.1":
+        o["spec_version"] = "2.1"
+    clock_at = rng.choice([tsor.text_us("2024-01-01T00:00:00Z"), mod_us, mod_us - 1, last, tsor.text_us("9999-12-31T23:59:59.999999Z")])
+    clk.set(clock_at)
+    try:
+        with warnings.catch_warnings():
+            warnings.simplefilter("ignore")
+            prev = stix2.parse(json.dumps(o), version=ver) if form == "object" else json.loads(json.dumps(o))
+    except family():
+        ctx.skip("base at the end of time refused")
+        return
+    ctx.ev()
+    ctx.count("last_instant_cases")
+    w = {"version": ver, "form": form, "object": o, "clock": tsor.format_us(clock_at, "any")}
+    for opname, fn in (("new_version", lambda: stix2.versioning.new_version(prev, name="m")), ("revoke", lambda: stix2.versioning.revoke(prev))):
+        try:
+            with warnings.catch_warnings():
+                warnings.simplefilter("ignore")
+                new = fn()
+        except family():
+            ctx.count("refusals_observed")
+            ctx.see("operations", "last-instant:%s:refused" % opname)
+            if mod_us + unit <= last:
+                ctx.violation("later-version-refused-although-possible", "%s of an object modified %d unit(s) before the last writable instant was refused" % (opname, back // unit), dict(w, operation=opname))
+            continue
+        except Exception as e:
+            ctx.violation("escape:%s:last-instant" % type(e).__name__, "%s of an object modified at %s let %s escape: %s" % (opname, o["modified"], type(e).__name__, str(e)[:100]), dict(w, operation=opname))
+            continue
+        nj = to_json(new)
+        new_us = tsor.text_us(nj.get("modified", ""))
+        ctx.see("operations", "last-instant:%s:returned" % opname)
+        if new_us is None or not (new_us - new_us % unit > mod_us):
+            ctx.violation("modified-not-strictly-later", "%s of an object modified at %s gave modified %s" % (opname, o["modified"], nj.get("modified")), dict(w, operation=opname, new=nj))
+        ctx.nontrivial(ver, form, opname, back, "last-instant")
+
+
 WORKLOADS = [
+    Workload("last-instant", wl_last_instant, quick=40, thorough=400),
     Workload("remove-custom", wl_remove_custom, quick=lambda: len(SUBJECTS) * 3, thorough=lambda: len(SUBJECTS) * 60),
     Workload("interoperability", wl_interop, quick=48, thorough=2400),
     Workload("history", wl_history, quick=lambda: len(SUBJECTS) * 30, thorough=lambda: len(SUBJECTS) * 6000),
